@@ -44,7 +44,7 @@ package tm
 //@   terminates
 //@   loop 1 invariant shape: bf != nil && bf.ctx == ctx && bf.cfg.MaxRetries == config.CommitRetryCount && bf.numRetries >= 0 && ghost.commit_sends == bf.numRetries && (config.CommitRetryCount > 0 ==> bf.numRetries <= config.CommitRetryCount)
 //@   loop 1 invariant failed-so-far: !ghost.commit_acked && (ghost.commit_sends > 0 ==> err != nil) && (ghost.commit_sends == 0 ==> err == nil && res == nil)
-//@   loop 1 invariant others: ghost.rollback_sends == 0 && ghost.begin_sends == old(ghost.begin_sends) && ghost.other_sends == old(ghost.other_sends) && (ghost.commit_sends > 0 ==> ghost.commit_xid == xid) && gtr.TxRole == role && gtr.Xid == xid
+//@   loop 1 invariant others: ghost.rollback_sends == 0 && ghost.begin_sends == old(ghost.begin_sends) && ghost.other_sends == old(ghost.other_sends) && ghost.rollback_acked == old(ghost.rollback_acked) && ghost.rollback_xid == old(ghost.rollback_xid) && ghost.begin_xid == old(ghost.begin_xid) && (ghost.commit_sends > 0 ==> ghost.commit_xid == xid) && gtr.TxRole == role && gtr.Xid == xid
 //@   loop 1 decreases config.CommitRetryCount - bf.numRetries
 
 //@ func (*GlobalTransactionManager).Rollback
@@ -63,7 +63,7 @@ package tm
 //@   terminates
 //@   loop 1 invariant shape: bf != nil && bf.ctx == ctx && bf.cfg.MaxRetries == config.RollbackRetryCount && bf.numRetries >= 0 && ghost.rollback_sends == bf.numRetries && (config.RollbackRetryCount > 0 ==> bf.numRetries <= config.RollbackRetryCount)
 //@   loop 1 invariant failed-so-far: !ghost.rollback_acked && (ghost.rollback_sends > 0 ==> err != nil) && (ghost.rollback_sends == 0 ==> err == nil && res == nil)
-//@   loop 1 invariant others: ghost.commit_sends == 0 && ghost.begin_sends == old(ghost.begin_sends) && ghost.other_sends == old(ghost.other_sends) && (ghost.rollback_sends > 0 ==> ghost.rollback_xid == xid) && gtr.TxRole == role && gtr.Xid == xid
+//@   loop 1 invariant others: ghost.commit_sends == 0 && ghost.begin_sends == old(ghost.begin_sends) && ghost.other_sends == old(ghost.other_sends) && ghost.commit_acked == old(ghost.commit_acked) && ghost.commit_xid == old(ghost.commit_xid) && ghost.begin_xid == old(ghost.begin_xid) && (ghost.rollback_sends > 0 ==> ghost.rollback_xid == xid) && gtr.TxRole == role && gtr.Xid == xid
 //@   loop 1 decreases config.RollbackRetryCount - bf.numRetries
 
 //@ func (*GlobalTransactionManager).Begin
@@ -72,6 +72,7 @@ package tm
 //@   let cv := ctxvalue(ctx, seataContextVariable)
 //@   requires isT(cv, *ContextVariable) && cv.(*ContextVariable) != nil
 //@   let xid0 := cv.(*ContextVariable).Xid
+//@   modifies cv.(*ContextVariable).Xid, ghost.begin_sends, ghost.last_send_failed, ghost.begin_xid
 //@   ensures one-request: ghost.begin_sends == old(ghost.begin_sends) + 1 && ghost.commit_sends == old(ghost.commit_sends) && ghost.rollback_sends == old(ghost.rollback_sends)
 //@   ensures failure-surfaces: ghost.last_send_failed ==> result != nil
 //@   ensures xid-only-on-success: result != nil ==> cv.(*ContextVariable).Xid == xid0
